@@ -54,6 +54,7 @@ func (fr *Frame) doCall(call *ssa.CallCommon, instr *ssa.Call, pos token.Pos) Va
 		fr.curQual = calleeQual(key)
 		fr.countCall(fr.curQual)
 		fr.siteClauses(short, ord, "before", args, nil, Val{}, pos)
+		fr.snapshotPreCall()
 		var r Val
 		if c, ok := vc.e.contracts[key]; ok {
 			r = fr.applyContract(c, nil, call.Signature(), args, resT, key, short, ord, pos)
@@ -82,8 +83,21 @@ func (fr *Frame) doCall(call *ssa.CallCommon, instr *ssa.Call, pos token.Pos) Va
 			return fr.callFunc(fv.Fn, fv.Bind, args, resT, pos)
 		}
 		fr.safeObl("nil", sNot(sEq(fv.T, "0")), pos, "call of nil func")
+		// calls through a function value: site clauses address them by the name of the variable
+		short := call.Value.Name()
+		if p, ok := call.Value.(*ssa.Parameter); ok {
+			short = p.Name()
+		}
+		fr.callOrd[short]++
+		ord := fr.callOrd[short]
+		fr.countCall(short)
+		fr.curQual = short
+		fr.siteClauses(short, ord, "before", args, nil, Val{}, pos)
+		fr.snapshotPreCall()
 		vc.havocAll(&fr.heap, "dynamic call")
-		return vc.freshVal("dyn", resT, fr.heap)
+		r := vc.freshVal("dyn", resT, fr.heap)
+		fr.siteClauses(short, ord, "after", args, nil, r, pos)
+		return r
 	}
 }
 
@@ -98,6 +112,7 @@ func (fr *Frame) callFunc(f *ssa.Function, binds []Val, args []Val, resT types.T
 	fr.countCall(fr.curQual)
 	qual := fr.curQual
 	fr.siteClauses(short, ord, "before", args, f, Val{}, pos)
+	fr.snapshotPreCall()
 	var r Val
 	c := vc.e.contracts[name]
 	switch {
@@ -503,6 +518,9 @@ func (fr *Frame) siteClauses(short string, ord int, when string, args []Val, f *
 		env := fr.envAt(fr.curBlock, true, nil)
 		env.heap = fr.heap
 		env.sec = fr.secHeap
+		if when == "after" {
+			env.pre = fr.preCall
+		}
 		if fr.curInstr != nil {
 			env.maxOrd = fr.instrOrd[fr.curInstr]
 		}
@@ -843,5 +861,18 @@ func (vc *VC) frameCheckAll(fr *Frame, except []string, pos token.Pos, callee st
 			continue
 		}
 		vc.frameCheckWhole(fr, m, pos, callee)
+	}
+}
+
+// the pre-call heap is only needed by "after" site clauses of the function under verification
+func (fr *Frame) snapshotPreCall() {
+	if fr.contract == nil {
+		return
+	}
+	for _, sc := range fr.contract.Sites {
+		if sc.When == "after" {
+			fr.preCall = fr.heap.clone()
+			return
+		}
 	}
 }
